@@ -39,6 +39,13 @@ def run(ctx) -> None:
 
     ctx.reuse("C01.labware-state", c02.ctor)
     ctx.reuse("C01.labware-state", c02.alias)
+    # the tracked volume is the exact sum of what the records move: no tolerance / clamping at the limits
+    for kind in ("add", "remove"):
+        ctx.reuse("C01.labware-state", c02.guard, kind)
+    # ... and the record carries that volume rounded (not truncated) to two decimals
+    from . import c09
+
+    ctx.reuse("C01.record-volume", c09.validator_numbers)
     ctx.reuse("C01.composition", c05.mix_args)
     ctx.reuse("C01.composition", c05.mix_formula)
     ctx.reuse("C01.composition", c05.local_write)
